@@ -328,6 +328,75 @@ eng_keys(void)
                                 if (memcmp(gk.expanded_keys, re, 16 * ((size_t) ks / 4 + 7)))
                                         kviol(mm, "gcm_pre|expanded_keys", "AES schedule inside gcm_key_data differs from FIPS-197", key, (size_t) ks);
                         }
+                        /* ---- GHASH pre-computation through its consumer on the same variant (the layout of
+                         * the hash-key powers is variant specific): messages long enough to use every power */
+                        {
+                                static struct gcm_key_data gk;
+                                static uint8_t msg[1040];
+                                uint8_t tag[16], ex[16];
+                                size_t len = (u % 5) == 0   ? 1 + rng_below(&r, 16)
+                                             : (u % 5) == 1 ? 16 * (1 + rng_below(&r, 9))
+                                             : (u % 5) == 2 ? 100 + rng_below(&r, 200)
+                                                            : 1 + rng_below(&r, sizeof msg);
+                                mk_key(&r, key, 16, (uint64_t) u + 23);
+                                rng_bytes(&r, msg, len);
+                                memset(&gk, 0xAA, sizeof gk);
+                                mcall("ghash_pre", (void *) m->ghash_pre, 2, (uint64_t) key, (uint64_t) &gk);
+                                memset(tag, 0, sizeof tag);
+                                mcall("ghash", (void *) m->ghash, 5, (uint64_t) &gk, (uint64_t) msg, (uint64_t) len, (uint64_t) tag,
+                                      (uint64_t) 16);
+                                ref_ghash_raw(key, NULL, msg, len, ex);
+                                n_helper_calls++;
+                                if (memcmp(tag, ex, 16))
+                                        kviol(mm, "ghash_pre|ghash", "GHASH computed from IMB_GHASH_PRE key material differs from SP 800-38D",
+                                              key, 16);
+                                cov_hit("C11", "%s|ghash_pre|cls%ld|len%s", variant_name(mm->variant), u % 5,
+                                        len <= 16 ? "<=16" : len <= 128 ? "<=128" : len <= 512 ? "<=512" : ">512");
+                        }
+                        /* ---- GCM pre-computation (key expansion + hash-key powers) through one-shot encryption on
+                         * the same variant; both IMB_AESxxx_GCM_PRE and _PRECOMP (powers from a given schedule) */
+                        {
+                                static struct gcm_key_data gk;
+                                static struct gcm_context_data gctx;
+                                static uint8_t pt[1040], ct[1040], ect[1040];
+                                uint8_t iv[12], aad[40], tag[16], etag[16];
+                                struct ref_aes_key ak;
+                                int ks = 16 + 8 * (int) (u % 3);
+                                int precomp = (int) ((u / 3) & 1);
+                                size_t len = (u % 7) == 0 ? 0 : (u % 7) < 3 ? 1 + rng_below(&r, 64) : 1 + rng_below(&r, sizeof pt);
+                                size_t aadl = rng_below(&r, sizeof aad + 1);
+                                mk_key(&r, key, (size_t) ks, (uint64_t) u + 29);
+                                rng_bytes(&r, pt, len);
+                                rng_bytes(&r, iv, sizeof iv);
+                                rng_bytes(&r, aad, sizeof aad);
+                                memset(&gk, 0xAA, sizeof gk);
+                                if (precomp) {
+                                        void *kx = ks == 16 ? (void *) m->keyexp_128 : ks == 24 ? (void *) m->keyexp_192 : (void *) m->keyexp_256;
+                                        void *pc = ks == 16   ? (void *) m->gcm128_precomp
+                                                   : ks == 24 ? (void *) m->gcm192_precomp
+                                                              : (void *) m->gcm256_precomp;
+                                        mcall("aes_keyexp", kx, 3, (uint64_t) key, (uint64_t) gk.expanded_keys, (uint64_t) d);
+                                        mcall("gcm_precomp", pc, 1, (uint64_t) &gk);
+                                } else {
+                                        void *fn = ks == 16 ? (void *) m->gcm128_pre : ks == 24 ? (void *) m->gcm192_pre : (void *) m->gcm256_pre;
+                                        mcall("gcm_pre", fn, 2, (uint64_t) key, (uint64_t) &gk);
+                                }
+                                void *enc = ks == 16 ? (void *) m->gcm128_enc : ks == 24 ? (void *) m->gcm192_enc : (void *) m->gcm256_enc;
+                                memset(tag, 0, sizeof tag);
+                                mcall("gcm_enc", enc, 10, (uint64_t) &gk, (uint64_t) &gctx, (uint64_t) ct, (uint64_t) pt, (uint64_t) len,
+                                      (uint64_t) iv, (uint64_t) aad, (uint64_t) aadl, (uint64_t) tag, (uint64_t) 16);
+                                ak.keylen = ks;
+                                memset(ak.key, 0, sizeof ak.key);
+                                memcpy(ak.key, key, (size_t) ks);
+                                ref_gcm(ref_aes_enc, &ak, 0, iv, 12, aad, aadl, pt, ect, len, etag, 16);
+                                n_helper_calls++;
+                                if (memcmp(tag, etag, 16) || memcmp(ct, ect, len))
+                                        kviol(mm, precomp ? "gcm_precomp|gcm_enc" : "gcm_pre|gcm_enc",
+                                              "AES-GCM output computed from the pre-computed key material differs from SP 800-38D", key,
+                                              (size_t) ks);
+                                cov_hit("C11", "%s|%s|%d|len%s", variant_name(mm->variant), precomp ? "gcm_precomp" : "gcm_pre", ks * 8,
+                                        len == 0 ? "0" : len <= 128 ? "<=128" : len <= 512 ? "<=512" : ">512");
+                        }
                         /* ---- 3GPP IV generators (variant independent exported functions) */
                         if (vi == 0) {
                                 uint32_t count = (uint32_t) rng_u64(&r), fresh = (uint32_t) rng_u64(&r);
